@@ -9,7 +9,7 @@ from . import common, mapfam
 
 ID = 'C15'
 LEVEL = 'exploration'
-QUOTA = {'quick': 1200, 'thorough': 12000}
+QUOTA = {'quick': 1800, 'thorough': 12000}
 BUDGET = {'quick': 100, 'thorough': 900}
 RULE = ('scenario = generated world (name tables present/absent, node names needing CSV quoting, any depth) x run '
         'configuration (0..5 runners-up, flatten / drop_level, single iteration) x seeded schedule; the CSV is parsed '
